@@ -439,9 +439,30 @@ Proof.
     destruct (input_msg sc md) as [m|]; try destruct (query_fields_of m); cbn; intros H; try discriminate; reflexivity.
 Qed.
 
-Theorem ts_server_loads_always sc fl : ts_server_loads sc fl = true.
+Theorem ts_routes_ok_always sc fl : ts_routes_ok sc fl = true.
 Proof.
-  unfold ts_server_loads. apply forallb_in. intros sv _. apply forallb_in. intros md _. apply ts_route_never_redeclares.
+  unfold ts_routes_ok. apply forallb_in. intros sv _. apply forallb_in. intros md _. apply ts_route_never_redeclares.
+Qed.
+
+(* so the TS server module loads exactly when the annotation texts it prints as bare property names
+   (discriminators, flatten_prefix ++ child name) are identifier names *)
+Theorem ts_server_loads_iff_types sc fl : ts_server_loads sc fl = ts_types_ok sc fl.
+Proof. unfold ts_server_loads. now rewrite ts_routes_ok_always. Qed.
+
+(* an identifier-like prefix keeps every child name an identifier; a prefix that is not one breaks all of them *)
+Lemma ts_prop_ok_app p n :
+  ts_prop_ok p = true -> forallb ts_prop_char n = true -> ts_prop_ok (p ++ n) = true.
+Proof.
+  destruct p as [|c r]; [discriminate|]. cbn [ts_prop_ok app]. intros H Hn.
+  apply andb_true_iff in H as [Hd Hall]. rewrite Hd. cbn [andb].
+  change (c :: r ++ n) with ((c :: r) ++ n). rewrite forallb_app, Hall, Hn. reflexivity.
+Qed.
+Lemma ts_prop_bad_prefix p n :
+  p <> [] -> ts_prop_ok p = false -> ts_prop_ok (p ++ n) = false.
+Proof.
+  destruct p as [|c r]; [congruence|]. intros _. cbn [ts_prop_ok app]. intros H.
+  apply andb_false_iff in H as [H|H]; [now rewrite H|].
+  change (c :: r ++ n) with ((c :: r) ++ n). rewrite forallb_app, H. cbn [andb]. apply andb_false_r.
 Qed.
 
 Lemma ts_client_consts_nodup sc md : nodup_strb (ts_client_consts sc md) = true.
@@ -451,12 +472,15 @@ Proof.
 Qed.
 
 (* what is left on the TS side is name-driven: a method called Constructor, a header whose property
-   name is not an identifier *)
+   name is not an identifier, an annotation text printed as a bare property name *)
 Theorem ts_loads_of_tags sc : ts_tags sc = [] -> ts_loads sc = true.
 Proof.
-  unfold ts_tags. intros H. apply app_eq_nil in H as [H1 H2]. apply tag_if_nil in H1. apply tag_if_nil in H2.
-  unfold ts_loads. apply forallb_in. intros fl Hfl. rewrite ts_server_loads_always. cbn [andb].
-  unfold ts_client_loads. apply andb_true_iff. split.
+  unfold ts_tags. intros H. apply app_eq_nil in H as [H1 H2]. apply app_eq_nil in H2 as [H2 H3].
+  apply tag_if_nil in H1. apply tag_if_nil in H2. apply tag_if_nil in H3.
+  unfold ts_loads. apply forallb_in. intros fl Hfl.
+  pose proof (existsb_false _ _ H3 fl Hfl) as Ety. cbn beta in Ety. apply negb_false_iff in Ety.
+  rewrite ts_server_loads_iff_types, Ety. cbn [andb].
+  unfold ts_client_loads. rewrite Ety, andb_true_r. apply andb_true_iff. split.
   - apply forallb_in. intros md Hmd. rewrite ts_client_consts_nodup. cbn [andb].
     pose proof (existsb_false _ _ H1 fl Hfl) as E. cbn beta in E.
     pose proof (existsb_false _ _ E md Hmd) as E2. cbn beta in E2. now apply negb_false_iff in E2.
@@ -713,6 +737,37 @@ Proof. vm_compute. repeat split; reflexivity. Qed.
 Lemma w_ts_header_prop :
   let sc := hdr_schema [] ["X-1st"] [] in
   accepted sc = true /\ defects_C13 sc = [s "ts-client-header-property-not-identifier"] /\ ts_loads sc = false /\ go_vets sc Both = true.
+Proof. vm_compute. repeat split; reflexivity. Qed.
+(* annotation texts printed as bare TS property names: a discriminator "@type", a flatten prefix "home-" *)
+Definition ts_disc_schema (d : string) : schema :=
+  one [msg "T" [fld "body" KString Singular None []] [];
+       msg "A" [fld "id" KString Singular None []; fld "text" (M "T") Singular (Some "p") []; fld "note" KString Singular (Some "p") []]
+               [disc_oneof "p" d]].
+Definition with_prefix (p : string) (f : field) : field :=
+  {| f_name := f_name f; f_number := f_number f; f_kind := f_kind f; f_card := f_card f; f_oneof := f_oneof f; f_query := f_query f;
+     f_unwrap := f_unwrap f; f_int64 := f_int64 f; f_enumenc := f_enumenc f; f_nullable := f_nullable f; f_empty := f_empty f;
+     f_tsfmt := f_tsfmt f; f_bytesenc := f_bytesenc f; f_oneof_value := f_oneof_value f; f_flatten := f_flatten f;
+     f_flatten_prefix := Some (s p) |}.
+Definition ts_prefix_schema (p : string) : schema :=
+  one [msg "Addr" [fld "street" KString Singular None []; fld "zip_code" KString Singular None []] [];
+       msg "A" [fld "id" KString Singular None []; with_prefix p (fld "home" (M "Addr") Singular None [AFlat])] []].
+Lemma w_ts_discriminator_prop :
+  let sc := ts_disc_schema "@type" in
+  accepted sc = true /\ defects_C13 sc = [s "ts-property-name-not-identifier"] /\ ts_loads sc = false /\
+  ts_server_loads sc (hd (file_of "" [] [] []) sc) = false /\ go_vets sc Both = true.
+Proof. vm_compute. repeat split; reflexivity. Qed.
+Lemma w_ts_prefix_prop :
+  let sc := ts_prefix_schema "home-" in
+  accepted sc = true /\ defects_C13 sc = [s "ts-property-name-not-identifier"] /\ ts_loads sc = false /\ go_vets sc Both = true.
+Proof. vm_compute. repeat split; reflexivity. Qed.
+Lemma ts_identifier_texts_load :
+  (let sc := ts_disc_schema "$kind_of" in accepted sc = true /\ defects_C13 sc = [] /\ ts_loads sc = true) /\
+  (let sc := ts_prefix_schema "home_" in accepted sc = true /\ defects_C13 sc = [] /\ ts_loads sc = true) /\
+  (* a message no RPC reaches is not printed: its texts do not matter *)
+  (let sc := [file_of "a.proto" [msg "T" [fld "body" KString Singular None []] [];
+                                  msg "Unused" [fld "text" (M "T") Singular (Some "p") []] [disc_oneof "p" "@type"];
+                                  msg "A" [fld "id" KString Singular None []] []] [] [echo "A"]] in
+   accepted sc = true /\ defects_C13 sc = [] /\ ts_loads sc = true).
 Proof. vm_compute. repeat split; reflexivity. Qed.
 Lemma w_method_generic : refuted (verbs_schema ["Generic"; "Other"]) ["method-named-generic"] OnlyHttp ["type"].
 Proof. refute. Qed.
